@@ -64,9 +64,73 @@ def gen_pipe(c, uid):
   return "\n".join(L) + "\n", stats
 
 
+def gen_adapt(c, uid):
+  """tiles whose construct() connects interfaces of different levels (FL masters to a CL memory, CL sources to
+  RTL queues / sinks, RTL sources to CL queues / sinks): the stdlib connect hooks create numbered adapter
+  components (MemIfcFL2CL_<n>, RecvCL2SendRTL_<n>, RecvRTL2SendCL_<n>, give_recv_ander_<n>) in the tile"""
+  L = ["from pymtl3 import *", "from pymtl3.stdlib.mem import MagicMemoryCL, MagicMemoryFL, MemMasterIfcFL, mk_mem_msg",
+       "from pymtl3.stdlib.queues import NormalQueueRTL, PipeQueueRTL, BypassQueueRTL, PipeQueueCL, BypassQueueCL, NormalQueueCL",
+       "from pymtl3.stdlib.test_utils.test_srcs import TestSrcCL, TestSrcRTL",
+       "from pymtl3.stdlib.test_utils.test_sinks import TestSinkCL, TestSinkRTL", "",
+       "class Core_%s(Component):" % uid, "  def construct(s):", "    s.mem = MemMasterIfcFL()", "    s.acc = Wire(Bits32)",
+       "    @update_once", "    def up_core():", "      s.acc @= s.mem.read(0x1000, 4)", ""]
+  ntile = c.randint(1, 2)
+  for ti in range(ntile):
+    decl, conn = [], []
+    nc = c.randint(0, 3)
+    if nc:
+      decl.append("s.cores = [Core_%s() for _ in range(%d)]" % (uid, nc))
+      if c.random() < 0.75:
+        decl.append("s.dmem = MagicMemoryCL(%d, [mk_mem_msg(8, 32, 32)] * %d)" % (nc, nc))
+        perm = list(range(nc))
+        c.shuffle(perm)
+        for i in range(nc):
+          a, b = "s.cores[%d].mem" % i, "s.dmem.ifc[%d]" % perm[i]
+          conn.append("connect(%s, %s)" % ((a, b) if c.random() < 0.5 else (b, a)))
+      else:
+        decl.append("s.fmem = [MagicMemoryFL() for _ in range(%d)]" % nc)
+        for i in range(nc):
+          conn.append("connect(s.cores[%d].mem, s.fmem[%d].ifc)" % (i, i))
+    for k in range(c.randint(0 if nc else 1, 3)):
+      kind = c.choice("ABCDFG")
+      qr = c.choice(["NormalQueueRTL(Bits8, 2)", "PipeQueueRTL(Bits8, 1)", "BypassQueueRTL(Bits8, 2)"])
+      qc = c.choice(["PipeQueueCL(2)", "BypassQueueCL(1)", "NormalQueueCL(3)"])
+      flip = lambda a, b: "connect(%s, %s)" % ((a, b) if c.random() < 0.5 else (b, a))
+      if kind == "A":
+        decl += ["s.a%d = TestSrcCL(Bits8, [1, 2])" % k, "s.q%d = %s" % (k, qr), "s.z%d = TestSinkRTL(Bits8, [1, 2])" % k]
+        conn += [flip("s.a%d.send" % k, "s.q%d.enq" % k), flip("s.q%d.deq" % k, "s.z%d.recv" % k)]
+      elif kind == "B":
+        decl += ["s.a%d = TestSrcRTL(Bits8, [1, 2])" % k, "s.q%d = %s" % (k, qc)]
+        conn += [flip("s.a%d.send" % k, "s.q%d.enq" % k)]
+      elif kind == "C":
+        decl += ["s.a%d = TestSrcCL(Bits8, [1, 2])" % k, "s.z%d = TestSinkRTL(Bits8, [1, 2])" % k]
+        conn += [flip("s.a%d.send" % k, "s.z%d.recv" % k)]
+      elif kind == "D":
+        decl += ["s.a%d = TestSrcRTL(Bits8, [1, 2])" % k, "s.z%d = TestSinkCL(Bits8, [1, 2])" % k]
+        conn += [flip("s.a%d.send" % k, "s.z%d.recv" % k)]
+      elif kind == "F":
+        decl += ["s.a%d = TestSrcCL(Bits8, [1, 2])" % k, "s.q%d = %s" % (k, qc)]
+        conn += ["connect(s.a%d.send, s.q%d.enq)" % (k, k)]
+      else:
+        decl += ["s.a%d = TestSrcCL(Bits8, [1, 2])" % k, "s.z%d = TestSinkCL(Bits8, [1, 2])" % k]
+        conn += ["connect(s.a%d.send, s.z%d.recv)" % (k, k)]
+    c.shuffle(conn)
+    L += ["class Tile%d_%s(Component):" % (ti, uid), "  def construct(s):"] + ["    " + x for x in decl + conn] + [""]
+  dims = c.choice([[2], [3], [2, 2], [1, 2], []])
+  L += ["class Top_%s(Component):" % uid, "  def construct(s):"]
+  for ti in range(ntile):
+    L.append("    s.t%d = %s" % (ti, _wrap("Tile%d_%s()" % (ti, uid), dims if ti == 0 else c.choice([[], [2]]))))
+  stats = {"ifc_classes": 2, "comp_classes": 2 + ntile, "ifc_lists": 0, "nested_ifcs": 0, "method_ports": 1,
+           "comp_lists_nd": int(len(dims) > 1), "struct_ports_in_ifc": 0, "stdlib_adapter_pipelines": 1, "stdlib_adapter_tiles": 1}
+  return "\n".join(L) + "\n", stats
+
+
 def gen(c, uid):
-  if c.random() < 0.15:
+  r = c.random()
+  if r < 0.15:
     return gen_pipe(c, uid)
+  if r < 0.27:
+    return gen_adapt(c, uid)
   L = ["from pymtl3 import *", ""]
   stats = {"ifc_classes": 0, "comp_classes": 0, "ifc_lists": 0, "nested_ifcs": 0, "method_ports": 0,
            "comp_lists_nd": 0, "struct_ports_in_ifc": 0}
